@@ -511,7 +511,18 @@ fn blocker_histories(ctx: &mut Ctx) {
         let out = guarded(|| {
             let _ = adblock::verif::take_events();
             let mut r = Rng::for_case(seed, "c06.blocker", idx);
-            let all: Vec<String> = gen_rules(&mut r).into_iter().filter(|l| !l.contains("##") && !l.contains("#@#")).collect();
+            let mut all: Vec<String> = gen_rules(&mut r).into_iter().filter(|l| !l.contains("##") && !l.contains("#@#")).collect();
+            if r.chance(1, 3) {
+                // (no serialization at this level, so removeparam clusters can take part)
+                all.extend(gen_cluster(&mut r, &Profile::ALL).into_iter().filter(|l| !l.contains("badfilter")));
+                r.shuffle(&mut all);
+            }
+            if r.chance(1, 4) {
+                // removeparam rules sharing bucket and mask: an explicit optimize() must leave them apart
+                all.push(format!("/rp/a$removeparam={}", r.ps(&["ad", "foo"])));
+                all.push(format!("/rp/b$removeparam={}", r.ps(&["foo", "keep"])));
+                r.shuffle(&mut all);
+            }
             let split = r.below(all.len() + 1);
             let mut rules: Vec<String> = all[..split].to_vec();
             let mut pending: Vec<String> = all[split..].to_vec();
@@ -525,6 +536,11 @@ fn blocker_histories(ctx: &mut Ctx) {
             let mut h = Hist { evals: 0, nt: false, viol: vec![], sample: json!(null), state_changes: 0, regex_events: 0, stale: 0, reuse: 0, ties: 0 };
             let nops = 10 + r.below(30);
             let mut reqs: Vec<gen::Req> = (0..4).map(|_| gen_request(&mut r, &all)).collect();
+            if all.iter().any(|l| l.starts_with("/rp/")) {
+                for x in ["a", "b"] {
+                    reqs.push(gen::Req { url: format!("https://x.com/rp/{}?ad=1&foo=2&keep=3", x), source: "https://o.org/".into(), rtype: "xhr" });
+                }
+            }
             let mut queries_after_change = 0;
             let mut forced: Vec<usize> = vec![];
             let mut remaining = nops;
